@@ -60,7 +60,9 @@ func (d *Driver) EstablishPeriodicSubscription(
 	match := patterns.subscriptionID.FindSubmatch(r.RawResult)
 	subID, _ := strconv.Atoi(string(match[1]))
 
+	d.subscriptionsLock.Lock()
 	d.subscriptions[subID] = make([][]byte, 0)
+	d.subscriptionsLock.Unlock()
 
 	r.SubscriptionID = subID
 
